@@ -68,6 +68,13 @@ def cases(draw):
         # sample of the global maximum (every pixel searches the disparities in between)
         p["grid_min"] = draw(st.lists(st.lists(st.integers(a, a + 1), min_size=W, max_size=W), min_size=H, max_size=H))
         p["grid_max"] = draw(st.lists(st.lists(st.integers(b - 1, b), min_size=W, max_size=W), min_size=H, max_size=H))
+    elif grid and b > a and draw(st.integers(0, 2)) == 0:
+        # only one of the two bounds varies from pixel to pixel
+        var = draw(st.lists(st.lists(st.integers(a, b), min_size=W, max_size=W), min_size=H, max_size=H))
+        if draw(st.booleans()):
+            p["grid_min"], p["grid_max"] = [[a] * W for _ in range(H)], var
+        else:
+            p["grid_min"], p["grid_max"] = var, [[b] * W for _ in range(H)]
     elif grid:
         gmin = draw(st.lists(st.lists(st.integers(a, b), min_size=W, max_size=W), min_size=H, max_size=H))
         gext = draw(st.lists(st.lists(st.integers(0, 2), min_size=W, max_size=W), min_size=H, max_size=H))
